@@ -190,6 +190,17 @@ pub fn check(mut ctx: Ctx, replay: Option<J>) -> ! {
     if !st.ok || !st.rejects().is_empty() {
       tool_error(&format!("SelfTest_Decimal failed: {} {:?}", st.error_text, st.rejects()));
     }
+    // the exp / ln enclosures of DecimalExp against CPython's correctly rounded exp and ln
+    let text = std::fs::read_to_string(ctx.verif.join("spec/selftest/decexp_cases.ndjson")).unwrap_or_else(|e| tool_error(&format!("decexp_cases.ndjson: {}", e)));
+    let cases: Vec<J> = text.lines().filter_map(|l| serde_json::from_str(l).ok()).collect();
+    let take = if quick { 36 } else { cases.len() };
+    if cases.len() < 100 {
+      tool_error("too few exp / ln self-test cases");
+    }
+    let st = tlc.judge("SelfTest_DecimalExp", "SelfTest_DecimalExp.cfg", &cases[..take], 12, 1800, &[]);
+    if !st.ok || !st.rejects.is_empty() {
+      tool_error(&format!("SelfTest_DecimalExp failed: {} {:?}", st.error_text, st.rejects));
+    }
     let gen = tlc.run(Run::new("Gen_C02", if quick { "Gen_C02.cfg" } else { "Gen_C02Deep.cfg" }).timeout(600));
     if !gen.ok {
       tool_error(&format!("Gen_C02 failed: {}", gen.error_text));
@@ -233,6 +244,11 @@ pub fn check(mut ctx: Ctx, replay: Option<J>) -> ! {
       }
       for b in list("trans").iter().take(12) {
         stim.push(json!({"op": "pow", "a": a, "b": b}));
+      }
+    }
+    for a in list("transfine") {
+      for op in ["exp", "log"] {
+        stim.push(json!({"op": op, "a": a}));
       }
     }
     // representation independence: operands of equal value but different scale (trailing zeros in the
@@ -297,6 +313,21 @@ pub fn check(mut ctx: Ctx, replay: Option<J>) -> ! {
       stim.push(s);
     }
     ctx.cov("random_tuples", json!(n_rand));
+  }
+  // exp and log are costly to judge (enclosures): spread them evenly so that the shards of the judge stay balanced
+  if replay.is_none() {
+    let (slow, rest): (Vec<J>, Vec<J>) = stim.drain(..).partition(|s| s["op"] == "exp" || s["op"] == "log");
+    let every = (rest.len() / slow.len().max(1)).max(1);
+    let mut slow = slow.into_iter();
+    for (i, s) in rest.into_iter().enumerate() {
+      if i % every == 0 {
+        if let Some(x) = slow.next() {
+          stim.push(x);
+        }
+      }
+      stim.push(s);
+    }
+    stim.extend(slow);
   }
   let recs: Vec<J> = stim.iter().map(|s| execute(&x, s)).collect();
   // anti-vacuity: a result off by one unit in the last place must be rejected
